@@ -32,9 +32,10 @@ Definition cpu_count_user (os_cpu_count : Z) (aff : option Z) (cg : option Z) (l
   let cpu_count_loky := (match loky_env with Some a => a | None => os_cpu_count end) in
   Ok ((Z.min (Z.min cpu_count_affinity cpu_count_cgroup) cpu_count_loky)).
 
-(* loky.backend.context.cpu_count, only_physical_cores=False path *)
-Definition cpu_count (os_raw : option Z) (aff : option Z) (cg : option Z) (loky_env : option Z) (only_physical_cores : bool) : result Z :=
+(* loky.backend.context.cpu_count (phys = what _count_physical_cores() reports, None = 'not found') *)
+Definition cpu_count (os_raw : option Z) (aff : option Z) (cg : option Z) (loky_env : option Z) (phys : option Z) (only_physical_cores : bool) : result Z :=
   let os_cpu_count := (match os_raw with Some c => if c =? 0 then 1 else c | None => 1 end) in
   bind (cpu_count_user os_cpu_count aff cg loky_env) (fun cpu_count_user =>
   let aggregate_cpu_count := (Z.max (Z.min os_cpu_count cpu_count_user) (1)) in
-  if (negb only_physical_cores) then (Ok (aggregate_cpu_count)) else (Raise RuntimeError (* fell off the end: returns None *))).
+  if (negb only_physical_cores) then (Ok (aggregate_cpu_count)) else (if (cpu_count_user <? os_cpu_count) then (Ok ((Z.max cpu_count_user (1)))) else (let cpu_count_physical := (match phys with Some p => p | None => 0 end) in
+  if (match phys with Some _ => true | None => false end) then (Ok (cpu_count_physical)) else (Ok (aggregate_cpu_count))))).
